@@ -138,6 +138,10 @@ class Net(object):
     def publish(self, url, topic, msg, who=None):
         bmsg = rus.to_msgpack(msg)          # raises like the wire would
         with self.cond:
+            if isinstance(msg, (list, tuple)) and not msg:
+                # periodic empty publication (Popen watcher): not activity
+                self._rpverif_idle_marks = \
+                        getattr(self, '_rpverif_idle_marks', 0) + 1
             self._event('pub', url, topic,
                         ru.as_string(rus.from_msgpack(bmsg)), who)
             for sub in list(self.subs.get(url, [])):
